@@ -1,4 +1,5 @@
 import FrappyProofs.Lemmas.Discovery
+import FrappyProofs.Lemmas.DiscoveryServer
 /-
 C19 — property theorems (nothing but property theorems and their non-vacuity examples).
 
@@ -317,5 +318,45 @@ theorem run_satisfies_spec {α : Type} [DecidableEq α] (id version : Str) (desc
 example : (∀ i ∈ [(⟨['t', 'c', 'p'], 10767⟩ : Iface), ⟨['w', 's'], 8080⟩], i.scheme ∈ Generated.C19.serverSchemes) ∧
     (∀ i ∈ [(⟨['t', 'c', 'p'], 10767⟩ : Iface), ⟨['w', 's'], 8080⟩], i.port ≤ maxPort) ∧
     tcpPorts (nodeOf ['e'] ['1'] none [⟨['t', 'c', 'p'], 10767⟩, ⟨['w', 's'], 8080⟩]) = [10767] := by decide
+
+/-! ## the server: a TCP port it really listens on, in every round -/
+
+/-- table facts about `Server.run` / `Server.restart`: the dict of started interfaces is emptied at the start of
+every round, the responder is given the ports really bound, `restart()` shuts the responder down -/
+theorem server_round_facts :
+    generatedServerTables.resetPerRound = true ∧ generatedServerTables.announcesBoundPort = true ∧
+    generatedServerTables.restartClosesDiscovery = true ∧ Generated.C19.listenerArgumentRecognised = true := by decide
+
+/-- In every round of every run of the server — any number of restarts, any pattern of interfaces that start or
+fail to start, any order in which they come up, any bound ports — every port that a running discovery responder
+of the node can announce is a port bound by a TCP interface that was started successfully in THAT round.
+(`message_fields`/`batch_ok` say that a message carries one of the responder's `ports`.) -/
+theorem announced_ports_are_served (id version : Str) (description : Option Str) (rounds : List (List Attempt))
+    (hschemes : ∀ r ∈ rounds, ∀ a ∈ r, a.iface.scheme ∈ Generated.C19.serverSchemes)
+    (i : Nat) (s : SrvState) (attempts : List Attempt)
+    (hs : (runRounds generatedServerTables generatedTables id version description .init rounds)[i]? = some s)
+    (hr : rounds[i]? = some attempts) :
+    ∀ L ∈ s.live, AnnouncedServed (servedTcpPorts attempts) L.ports := by
+  intro L hL
+  have := runRounds_live generatedTables id version description rounds .init rfl i s attempts hs hr L hL
+  rw [this]
+  exact roundListener_ports_served _ _ _ _ _ (hschemes attempts (List.mem_of_getElem? hr))
+
+/-- at most one responder runs in a round: a responder of an earlier round is never left over -/
+theorem one_responder_per_round (id version : Str) (description : Option Str) (rounds : List (List Attempt))
+    (i : Nat) (s : SrvState)
+    (hs : (runRounds generatedServerTables generatedTables id version description .init rounds)[i]? = some s) :
+    s.live.length ≤ 1 :=
+  runRounds_live_le_one generatedTables id version description rounds .init rfl i s hs
+
+/-- a run with a restart during which the second port is taken by somebody else: hypotheses met, the second
+round's responder announces the first port only -/
+example :
+    let rounds : List (List Attempt) :=
+      [[⟨⟨['t', 'c', 'p'], 10767⟩, .started 10767⟩, ⟨⟨['t', 'c', 'p'], 10768⟩, .started 10768⟩],
+       [⟨⟨['t', 'c', 'p'], 10768⟩, .failed⟩, ⟨⟨['t', 'c', 'p'], 10767⟩, .started 10767⟩]]
+    (∀ r ∈ rounds, ∀ a ∈ r, a.iface.scheme ∈ Generated.C19.serverSchemes) ∧
+    ((runRounds generatedServerTables generatedTables ['e'] ['1'] none .init rounds).map
+      (fun s => s.live.map (·.ports))) = [[[10767, 10768]], [[10767]]] := by decide +kernel
 
 end Frappy.Props.C19
